@@ -710,7 +710,7 @@ func main() {
 	run.Assume("variants other than cmdsA/unsol run only on inputs that can reach the code that distinguishes them (keyword filter in maskFor); the default derivation of every production, the base responses and the raw strings run under all six")
 	run.Assume("sets with more than 2^20 members are not enumerated in batch workers (reported as unbounded-alloc and demonstrated once in an isolated worker under RLIMIT_AS 2 GiB)")
 	run.Assume("ESEARCH MIN/MAX 0, UIDNEXT/UIDVALIDITY/APPENDUID 0 are not flagged: 0 is the API's 'absent' value there")
-	run.Assume("CPU time (rusage of the worker) is recorded per growth run; reported are a >= 6x ratio per doubling at >= 1 s, and a >= 24x ratio over three doublings (linear: 8x) ending at >= 2 s of CPU for at most 0.5 MB of input — re-measured, the smallest ratio counts; allocation, malloc count and read/deadline call counts must stay <= 2.5x per doubling")
+	run.Assume("CPU time (rusage of the worker) is recorded per growth run; reported are a >= 6x ratio per doubling at >= 1 s, and a >= 24x ratio over three doublings (linear: 8x) ending at >= 1 s of CPU — re-measured, the smallest ratio counts; allocation, malloc count and read/deadline call counts must stay <= 2.5x per doubling")
 	run.Assume("the bare variant is skipped for an input when the handler variant already showed the nil-literal item that makes `go msg.discard()` panic; the three shortest such inputs are run to show the process dies")
 	run.Assume("inputs are de-duplicated on a 64-bit FNV hash")
 	if p.stopped.Load() {
